@@ -12,6 +12,9 @@ CLAIMS = {
  "C02": dict(design="5/C02", tech=E1,
    text="Programs of 3 stages x behaviours plus 0..2 (quick) / 0..3 (thorough) registered actions (cleanups, patches of present/absent attributes, fixtures ok/failing/nested) at 5 registration sites are run twice on one instance; execution log (with the patched attribute's value visible in each entry) is compared with a reference interpreter of the statement; exhaustive within the bound.",
    note="Trusts CrossHair/z3 path exhaustion, fixtures 4.3.2, the reference interpreter in vf/harness/c02.py."),
+ "C04": dict(design="5/C04", tech=E1,
+   text="Every history of <=3 (quick) / <=4 steps over {startTestRun, stopTestRun, stop(), a test with each outcome} x 10 result stacks x failfast {off, set before wrapping, set after wrapping}: wasSuccessful() and shouldStop are compared with a 3-variable reference after every call on the outer object and every underlying result; TextTestResult's summary is parsed (count, OK xor FAILED(failures=K), one section per problem); real suites of three generated TestCases stop dispatching under failfast; TestProgram/TestToolsTestRunner in-process: SystemExit status and summary. Exhaustive within the bound.",
+   note="In-process SystemExit instead of a subprocess exit status; verdict of non-testtools targets and of ExtendedToStreamDecorator not demanded."),
  "C06": dict(design="5/C06", tech=E1 + "; unbounded symbolic int parameters and matchees",
    text="Matcher expression trees (all depth<=1 trees over the full alphabet, all 3964 depth-2 trees over a reduced alphabet; sequence, dict and structure combinators over leaf matchers) are built from selector opcodes; leaf parameters and matchees are unbounded symbolic ints, so each explored path covers every integer satisfying its path condition; verdict is compared with a denotational evaluator, plus determinism and non-modification.",
    note="Ints are wrapped in an opaque ordered value (constant repr) so that message formatting does not fork on digits; regex/doctest/filesystem/warnings leaves are outside the claim."),
